@@ -30,11 +30,35 @@ static void ev(int kind, int blk, size_t sz)
 
 void shim_evclear(void) { shim_nev = 0; }
 
+/* The library's own static storage (a free list, a memo, a lock table kept at file scope) outlives the objects a history creates.  The driver
+ * renames the .data / .bss sections of the library's objects (libdata, libdrl, libdr, libbss), the linker brackets them with __start_ / __stop_
+ * symbols, and every reset puts them back to the image they had when the process started - so that "a history replayed on fresh objects" also
+ * means a fresh library, and so that no static pointer survives into blocks this function is about to free. */
+extern char __start_libbss[] __attribute__((weak)), __stop_libbss[] __attribute__((weak)), __start_libdata[] __attribute__((weak)), __stop_libdata[] __attribute__((weak));
+extern char __start_libdrl[] __attribute__((weak)), __stop_libdrl[] __attribute__((weak)), __start_libdr[] __attribute__((weak)), __stop_libdr[] __attribute__((weak));
+static struct { char *lo; size_t n; char *init; } shim_sr[4]; static int shim_nsr = -1;
+__attribute__((no_sanitize_address, noinline)) static void shim_rawcopy(volatile char *d, const volatile char *s, size_t n) { while (n--) *d++ = *s++; }      /* the ranges contain sanitizer red zones between the objects */
+static void shim_statics_reset(void)
+{
+    int i;
+    if (shim_nsr < 0) {
+        char *lo[4] = { __start_libbss, __start_libdata, __start_libdrl, __start_libdr }, *hi[4] = { __stop_libbss, __stop_libdata, __stop_libdrl, __stop_libdr };
+        shim_nsr = 0;
+        for (i = 0; i < 4; i++) if (lo[i] && hi[i] > lo[i]) {
+            shim_sr[shim_nsr].lo = lo[i]; shim_sr[shim_nsr].n = (size_t)(hi[i] - lo[i]); shim_sr[shim_nsr].init = __real_malloc(shim_sr[shim_nsr].n);
+            if (shim_sr[shim_nsr].init == NULL) continue;
+            shim_rawcopy(shim_sr[shim_nsr].init, lo[i], shim_sr[shim_nsr].n); shim_nsr++;
+        }
+        return;
+    }
+    for (i = 0; i < shim_nsr; i++) shim_rawcopy(shim_sr[i].lo, shim_sr[i].init, shim_sr[i].n);
+}
 void shim_reset(void)
 {
     int i;
     int save = shim_in_lib;
     shim_in_lib = 0;
+    shim_statics_reset();
     for (i = 0; i < shim_nblk; i++) {
         if (shim_blks[i].live) { __real_free(shim_blks[i].p); }
     }
